@@ -5,6 +5,6 @@ Import ListNotations.
 Open Scope list_scope.
 Open Scope Z_scope.
 
-Theorem tie_vi_to_int : forall d, src_vi_to_int d = of_option (pairZ (vi_to_int d)).
+Theorem tie_vi_to_int : forall d, wf_bytes d -> src_vi_to_int d = of_option (pairZ (vi_to_int d)).
 Proof. exact src_vi_to_int_eq. Qed.
 Print Assumptions tie_vi_to_int.
